@@ -151,7 +151,7 @@ PROPS["C07"] = {
     "modules": ["Gws.Props.C07", "Gws.Props.C07Par", "Gws.Props.SourceShapeConn"],
     "theorems": ["SourceShape.conn_sections", "Conc.callback_shape", "Conc.open_close_at_most_once", "Conc.reader_done_closed_once", "Conc.messages_in_wire_order",
                  "Par.inv_run", "Par.parallel_bounded", "Par.reader_blocks_at_limit", "Par.each_message_once", "Par.panic_absorbed", "Par.no_crash_when_recovering"],
-    "suites": ["conn", "par", "read", "faults:session", "racy:parallel-handlers"],
+    "suites": ["conn", "par", "read", "faults:session", "faults:stall-readloop", "racy:parallel-handlers"],
     "trusted": CONC_TRUSTED + ["the order and payloads of the callbacks between open and close are those of the read-path model (C03)",
                                "parallel handling is a separate small transition system (Model/Conc/Parallel): a send on a full buffered channel blocks; defer/recover semantics as modelled (Facts.dispatchDefersRecovery); tied by the par suite (gate-controlled handlers, panics, exhaustive action sequences)"],
     "clauses_without_theorem": ["the interaction of parallel handlers with connection teardown (handlers still running when the read loop ends) is observed only (racy parallel-handlers)"],
